@@ -197,6 +197,8 @@ def extract_ladder(repo: Repo) -> Ladder:
                 rc = ret_class(c)
                 if rc == 'ArgumentNode' or rc == 'CodeBlockNode':
                     return frozenset({('delim', rc)})
+                if rc == 'SymbolNode':
+                    return frozenset({('sym', None)})       # a helper that consumes a token and returns its symbol
                 if e.args:           # helper building a node at this level (method_call, index_call)
                     return frozenset({('level', level)})
             return frozenset({('other', short(e, 40))})
